@@ -250,8 +250,14 @@ func TestProp(t *testing.T) {
 		for i := 0; i < nRand; i++ {
 			cp := rng.Range(1, 16)
 			keys := cp + rng.Range(1, 6)
+			nops := rng.Range(6, 80)
+			if i%400 == 399 { // large caches: hundreds of entries, thousands of operations
+				cp = []int{64, 129, 300, 1000}[rng.Intn(4)]
+				keys = cp + rng.Range(1, cp)
+				nops = rng.Range(3*cp, 6*cp)
+			}
 			c := Case{Cap: cp, Keys: keys}
-			for n := rng.Range(6, 80); n > 0; n-- {
+			for n := nops; n > 0; n-- {
 				switch x := rng.Intn(20); {
 				case x < 8:
 					c.Ops = append(c.Ops, Op{"add", rng.Intn(keys)})
